@@ -182,11 +182,32 @@ def dest_request(sub, seq, split, exdev=False, brk=None):
                     [vlib.hexs(c) for c in codes])
 
 
+# Guards: conditions that ask the operating system while the rules are evaluated (command = fork/waitpid, isdirectory and the
+# file-time date conditions = stat), written so that the documented outcome of the sequence does not change: `yes` is true of the
+# subject, `no` is false.  The run is followed call by call through Model.mainP (evalP) like every other one.
+GUARDS = {
+    'command': ('command "true"', 'command "false"'),
+    'isdir': ('isdirectory "%s/dstA"' % R, 'isdirectory "%s/conf"' % R),
+    'date': ('date modified > 1 year', 'date modified > 50 years'),
+}
+
+
+def seq_guard(sub, seq, split):
+    """Which guard (if any) the rules of this sequence carry: a deterministic third of the jobs."""
+    h = (len(seq) * 7 + sum(len(a) for a in seq) + (0 if split is None else 3 * split + 1) + (0 if sub == 'new' else 5)) % 9
+    return {0: 'command', 1: 'isdir', 2: 'date'}.get(h)
+
+
 def seq_config(sub, seq, split, brk=None):
     cond = 'new' if sub == 'new' else '! new'
+    g = seq_guard(sub, seq, split) if brk is None else None      # the nested `break` shapes (p11) stay as they are
     # F21: a message taken from new to cur of the walked maildir is met again when cur is read: every rule is restricted to the
     # subdirectory the subject starts in (as C09 does)
     lines = ['\tmatch header "X-Id" /^99$/ move "%s/dstB"' % R]
+    if g:
+        yes, no = GUARDS[g]
+        cond = '%s and %s' % (cond, yes)
+        lines.append('\tmatch %s move "%s/dstB"' % (no, R))
     if brk is not None:
         inner = [PACTS[a][0] for a in seq[:split]]
         inner.insert(brk, 'break')
@@ -715,6 +736,7 @@ def run(rep):
                                      'documented semantics evaluated on the implementation output found no failing input',
                        'disagreements': tot['corr'], 'examples': corr_bad}, False)
     seqstats, nonregstats = process_stage(rep, sc, random.Random(rep.seed + 1))
+    import isolation; rep.coverage['isolation'] = isolation.stage(rep, proc.Tools(sc), 'C03')     # nothing leaks from one message / maildir / rule into the next (tools/isolation.py)
     vlib.lean_conclude(rep)
     rep.coverage.update({
         'evaluations': count['total'] + seqstats['runs'] + nonregstats['runs'],
@@ -768,6 +790,9 @@ def run(rep):
 
 
 def replay(rep, path):
+    import isolation
+    if isolation.replay_file(rep, path):
+        return
     import json
     j = json.load(open(path))
     sc = vlib.Scratch()
